@@ -17,6 +17,7 @@ import Pymc.Model.HashCall
 import Pymc.Model.HashCallMany
 import Pymc.Model.HashBroadcast
 import Pymc.Model.HashPooledCall
+import Pymc.Model.HashPooledCallMany
 import Pymc.Model.Serde
 import Pymc.Model.Aws
 import Pymc.Model.HashRoute
@@ -714,24 +715,33 @@ def handleHashCall (ws : List String) : Option String := do
       go st1 (k + 1) rest (line :: acc)
   pure ("ok " ++ " | ".intercalate (go (HashCall.init (List.range n) t0) 0 calls []))
 
-/-! ### C01/C09/C13: `HashClient ∘ PooledClient ∘ Client` (`Pymc/Model/HashPooledCall.lean`), a whole history in one line (stateless)
+/-! ### C01/C09/C13: `HashClient ∘ PooledClient ∘ Client` (`Pymc/Model/HashPooledCall.lean`, `Pymc/Model/HashPooledCallMany.lean`), a whole history in one line (stateless)
 
 `hashpooledcall cfg=<au><utf8><dnr><ign>:<pfxhex> fo=<retry_attempts>,<retry_timeout>,<dead_timeout> pool=<max>,<idle> n=<servers> t0=<t> <call> | <call> | …`
 
 * `cfg=`, `fo=`, `n=`, `t0=` as for `hashcall` (`<ign>` is the `ignore_exc` of the `HashClient`; neither the `PooledClient`s nor
   their inner clients ignore); `pool=` is `max_pool_size,pool_idle_timeout` of every `PooledClient` as for `pooledcall`;
-* a `<call>` is a single-key call of `hashcall`: `rk=<s,s,…> t=<now>[,<release>] op=… <arguments of the op> [cf=x<code>]
-  [sf=x<code>] ev=… ev=…`; `t=` is the time of the call (bookkeeping clock and pool checkout), optionally followed by
-  the time at which the pool releases the inner client (default: the same).  The multi-key operations are not accepted.
+* a single-key `<call>` is that of `hashcall`: `rk=<s,s,…> t=<now>[,<release>] op=… <arguments of the op> [cf=x<code>]
+  [sf=x<code>] ev=… ev=…`; `t=` is the time of the call (bookkeeping clock and every pool check-out of the call), optionally
+  followed by the time at which the pools release their inner clients (default: the same);
+* the multi-key `<call>`s are those of `hashcall`, with the same `t=<now>[,<release>]`:
+  `op=hget_many gets=<0|1> t=… keys=<rk>~<key>|… (or `-`) [s<i>.cf=x<code>] [s<i>.sf=x<code>] s<i>.ev=… …`,
+  `op=hset_many t=… items=<rk>~<key>~<value>|… (or `-`) e=<i:<int>|x> nr=<n|0|1> fl=<n|int> [s<i>.cf=…] [s<i>.sf=…] s<i>.ev=… …`,
+  `op=hdelete_many t=… nr=<n|0|1> keys=<rk>~<key>|… (or `-`) [k<j>.cf=…] [k<j>.sf=…] k<j>.ev=… …`
+  (`s<i>.` prefixes the script of the connection used for server `i` during the call, `k<j>.` that of the connection used
+  for key number `j` of a `delete_many`).
 
-Example:
+Examples:
 `hashpooledcall cfg=0000: fo=0,1,5 pool=1,0 n=2 t0=0 rk=0,1 t=0 op=get k=b:6b ev=d:454e440d0a | rk=0,1 t=1 op=get k=b:6b sf=x32 | rk=0,1 t=8 op=get k=b:6b ev=d:454e440d0a`
+`hashpooledcall cfg=0001: fo=1,1,5 pool=2,3 n=2 t0=0 op=hget_many gets=0 t=0,1 keys=0,1~b:6b|1,0~b:7a s0.ev=d:454e440d0a s1.cf=x61 | op=hset_many t=2 items=0,1~b:6b~b:76|1,0~b:7a~b:77 e=i:0 nr=0 fl=n s0.ev=d:53544f5245440d0a s1.ev=d:53544f5245440d0a | op=hdelete_many t=3 nr=0 keys=0,1~b:6b|0,1~b:7a k0.ev=d:44454c455445440d0a k1.ev=d:4e4f545f464f554e440d0a`
 
 Reply: `ok <obs> | <obs> | …` with one `<obs>` per call:
-`res=<result token|exc:…> srv=<server handed to _safely_run_func|-> pc=<number of the PooledClient invoked|-> inner=<inner client
-that served, numbered per pool|-> io=<connection, numbered per pool|-> nodes=[…] failed=[…] dead=[…] ldc=<t>
+`res=<result token|exc:…> srv=<servers handed to _safely_run_func / _safely_run_set_many, `+`-separated|-> pc=<number of the
+PooledClient invoked per such server, `-` if its pool was not asked|-> inner=<inner client that served, numbered per pool, per such
+server|-> io=<connection, numbered per pool, per such server|-> nodes=[…] failed=[…] dead=[…] ldc=<t>
 pools=[<server>:<PooledClient>:<idle clients: id/conn/open/bytes unread, `;`-separated or ->:<closed connections, `.`-separated or ->:<checked out>,…]
-cons=<tags of the consumed recv() results>` (bookkeeping state and registered pools after the call). -/
+cons=<tags of the consumed recv() results, per inner call `+`-separated>` (bookkeeping state and registered pools after the call;
+for a single-key call every list has at most one entry). -/
 def handleHashPooledCall (ws : List String) : Option String := do
   let (cfg, ign) ← parseCfg ws
   let fo ← natList (← arg ws "fo")
@@ -740,43 +750,85 @@ def handleHashPooledCall (ws : List String) : Option String := do
   let pcfg : Pooled.Cfg ← match pl with | [m, i] => some ⟨m, i⟩ | _ => none
   let n ← (← arg ws "n").toNat?
   let t0 ← (← arg ws "t0").toNat?
-  let calls ← (splitOnTok ws "|").mapM fun seg => do
-    let t ← natList (← arg seg "t")
-    let (now, fin) ← match t with | [a] => some (a, a) | [a, b] => some (a, b) | _ => none
-    let c ← parseCall seg
+  let parseScript := fun (seg : List String) => do
     let cf ← parseExcOpt ((arg seg "cf").getD "-")
     let sf ← parseExcOpt ((arg seg "sf").getD "-")
     let evs ← evsOf seg
-    let rk ← natList (← arg seg "rk")
-    pure ({ rk := rk, call := c, sc := { connectFails := cf, sendFails := sf, evs := evs }, now := now, fin := fin } :
-      HashPooledCall.HPCall (List Nat))
+    pure ({ connectFails := cf, sendFails := sf, evs := evs } : Exchange.Script)
+  let serverScripts := fun (seg : List String) => do
+    let scripts ← (List.range n).mapM fun i =>
+      let pre := s!"s{i}."
+      (parseScript ((seg.filter (·.startsWith pre)).map fun w => (w.drop pre.length).toString)).map fun sc => (i, sc)
+    pure (fun (s : Nat) => ((scripts.find? (·.1 = s)).map (·.2)).getD ({} : Exchange.Script))
+  let calls ← (splitOnTok ws "|").mapM fun seg => do
+    let t ← natList (← arg seg "t")
+    let (now, fin) ← match t with | [a] => some (a, a) | [a, b] => some (a, b) | _ => none
+    if (arg seg "op") = some "hget_many" then
+      let gets := (← arg seg "gets") = "1"
+      let kstr ← arg seg "keys"
+      let keys ← if kstr = "-" then some [] else (kstr.splitOn "|").mapM fun it =>
+        (match it.splitOn "~" with
+        | [r, k] => do pure ((← natList r), (← parseKey k))
+        | _ => none)
+      let lookup ← serverScripts seg
+      pure (({ op := .getMany gets keys lookup, now := now, fin := fin } : HashPooledCall.MPCall (List Nat)),
+        HashCall.defaultRes .version)
+    else if (arg seg "op") = some "hset_many" then
+      let istr ← arg seg "items"
+      let items ← if istr = "-" then some [] else (istr.splitOn "|").mapM fun it =>
+        (match it.splitOn "~" with
+        | [r, k, v] => do pure ((← natList r), (← parseKey k), (← parseVal v))
+        | _ => none)
+      let fl ← arg seg "fl"
+      let flags ← if fl = "n" then some none else fl.toInt?.map some
+      let e ← parseIntArg (← arg seg "e")
+      let nr ← parseOptBool (← arg seg "nr")
+      let lookup ← serverScripts seg
+      pure (({ op := .setMany items e nr flags (fun s _ => lookup s), now := now, fin := fin } : HashPooledCall.MPCall (List Nat)),
+        HashCall.defaultRes .version)
+    else if (arg seg "op") = some "hdelete_many" then
+      let kstr ← arg seg "keys"
+      let keys ← if kstr = "-" then some [] else (kstr.splitOn "|").mapM fun it =>
+        (match it.splitOn "~" with
+        | [r, k] => do pure ((← natList r), (← parseKey k))
+        | _ => none)
+      let nr ← parseOptBool (← arg seg "nr")
+      let keys ← (keys.zipIdx).mapM fun ((r, k), j) =>
+        let pre := s!"k{j}."
+        (parseScript ((seg.filter (·.startsWith pre)).map fun w => (w.drop pre.length).toString)).map fun sc => (r, k, sc)
+      pure (({ op := .deleteMany keys nr, now := now, fin := fin } : HashPooledCall.MPCall (List Nat)),
+        HashCall.defaultRes .version)
+    else
+      let c ← parseCall seg
+      let sc ← parseScript seg
+      let rk ← natList (← arg seg "rk")
+      pure (({ op := .cmd rk c sc, now := now, fin := fin } : HashPooledCall.MPCall (List Nat)), HashCall.defaultRes c)
   let showO := fun (o : Option Nat) => match o with | some i => toString i | none => "-"
   let dash := fun (sep : String) (l : List String) => if l = [] then "-" else sep.intercalate l
-  let rec go (st : HashPooledCall.St pcfg) (k : Nat) (cs : List (HashPooledCall.HPCall (List Nat))) (acc : List String) :
+  let rec go (st : HashPooledCall.St pcfg) (k : Nat) (cs : List (HashPooledCall.MPCall (List Nat) × Client.Res)) (acc : List String) :
       List String :=
     match cs with
     | [] => acc.reverse
-    | hc :: rest =>
-      let (st1, ob) := HashPooledCall.callHP cfg pcfg fcfg Failover.prefRoute st k hc.now hc.fin hc.rk hc.call hc.sc
+    | (mc, dv) :: rest =>
+      let (st1, ob) := HashPooledCall.callMP cfg pcfg fcfg Failover.prefRoute st k mc
       let res := match ob.res with
         | .value r => showRes r
-        | .default => showRes (HashCall.defaultRes hc.call)
+        | .default => showRes dv
         | .raised _ (.inner e) => "exc:" ++ showExc e
         | .raised _ .tooManyObjects => "exc:TooManyObjects"
         | .allDown => "exc:MemcacheError"
         | .illegalKey => "exc:IllegalInput"
         | .internalError => "exc:Internal"
-      let po : Option PooledCall.PObs := ob.inner
-      let cons := match HashPooledCall.stepOf ob with
-        | some stp => if stp.consumed = [] then "-" else ",".intercalate (stp.consumed.map fun (te : Framing.TEv) => toString te.1)
-        | none => "-"
+      let pos : List (Option PooledCall.PObs) := ob.batches.map fun b => b.inner
+      let cons := dash "+" ((HashPooledCall.stepsOf ob).map fun stp =>
+        if stp.consumed = [] then "-" else ",".intercalate (stp.consumed.map fun (te : Framing.TEv) => toString te.1))
       let pools := ",".intercalate (st1.clients.map fun (s, x) =>
         let p : PooledCall.St := x.st
         let free := dash ";" (p.free.map fun cl =>
           let unread := if cl.sockOpen then (Readers.joinData (cl.pipe.map fun (te : Framing.TEv) => te.2)).length else 0
           s!"{cl.id}/{showO cl.conn}/{if cl.sockOpen then 1 else 0}/{unread}")
         s!"{s}:{x.id}:{free}:{dash "." (p.closed.map toString)}:{p.used.length}")
-      let line := s!"res={res} srv={showO ob.server} pc={showO ob.obj} inner={showO (po.bind (·.client))} io={showO (po.bind (·.io))} {Failover.showState st1.fo} pools=[{pools}] cons={cons}"
+      let line := s!"res={res} srv={dash "+" (ob.batches.map fun b => toString b.server)} pc={dash "+" (ob.batches.map fun b => showO b.obj)} inner={dash "+" (pos.map fun po => showO (po.bind (·.client)))} io={dash "+" (pos.map fun po => showO (po.bind (·.io)))} {Failover.showState st1.fo} pools=[{pools}] cons={cons}"
       go st1 (k + 1) rest (line :: acc)
   pure ("ok " ++ " | ".intercalate (go (HashPooledCall.init pcfg (List.range n) t0) 0 calls []))
 
